@@ -111,7 +111,7 @@ def run_shard(acc, shard, nshards, seed, tier):
         elif kind == 'oversize':
             s = spec['routes'][0]['symbol']
             spec['scripts'][s]['unit'] = spec['scripts'][s]['unit'] * 40
-        if draw(st.booleans()):
+        if draw(st.sampled_from([True, True, True, False])):
             for sc in spec['scripts'].values():
                 sc['gate'] = 'obv'  # decisions read an indicator whose value depends on the configured candle window
         if draw(st.booleans()):
@@ -127,6 +127,7 @@ def run_shard(acc, shard, nshards, seed, tier):
                 sc['hyperparameters'] = [dict(name='mult', type='float', min=0.25, max=2.0, default=draw(st.sampled_from([0.5, 1.0, 1.5]))),
                                          dict(name='other', type='int', min=1, max=10, default=draw(st.integers(1, 10)))]
             spec['hp'] = {'declared-only': None, 'partial': draw(st.sampled_from([{'other': 7}, {'mult': 0.75}])), 'full': {'mult': 1.25, 'other': 2}}[hpk]
+        spec['reuse_route_objects'] = draw(st.sampled_from([False, False, True]))  # pass the previous call's route list objects, edited in place
         spec.pop('n', None)
         return spec
 
@@ -166,5 +167,5 @@ def run_shard(acc, shard, nshards, seed, tier):
              (['probe-aborts'] if clean['probe']['error'] else [])
         brief = [dict(cfg=c['cfg'], routes=c['routes'], data=c['data'], fast=c['fast'], outcome=s) for c, s in zip(h, summ)]
         return dict(key=h, nontrivial=nt, classes=cl, violations=vios, sample=brief if nt else None)
-    runner.hyp_search(acc, histories(), chk, 5 if tier == 'quick' else 200, seed, tier, known=known, shrink_calls=6, max_shrink_sigs=1,
+    runner.hyp_search(acc, histories(), chk, 7 if tier == 'quick' else 200, seed, tier, known=known, shrink_calls=6, max_shrink_sigs=1,
                       describe=lambda h: dict(history=h))
